@@ -150,7 +150,7 @@ func init() {
 	register(&fw.Check{
 		ID:    "C08",
 		Level: "model_checking",
-		Rule: "bracket contents Sigma6^<=k (0 1 2 5 a f F g : . % [ ]) and every bracket arrangement of them, structured addresses (0..9 pieces from a 9-item menu, '::' at every position, 22 IPv4 tails incl. every machine-integer wrap point), in http: and foo:, compared with the model's IPv6 parser/serializer through the full URL parse; " +
+		Rule: "bracket contents Sigma6^<=k (0 1 2 5 a f F g : . % [ ]) and every bracket arrangement of them, structured addresses (0..9 pieces from a 9-item menu, 22 IPv4 tails incl. every machine-integer wrap point; and, for 0..9 pieces in every zero/non-zero pattern and with one deviating piece, '::' before every piece and at the end, a second '::', a lone ':' at either end, an IPv4 tail), in http: and foo:, compared with the model's IPv6 parser/serializer through the full URL parse; " +
 			"serializer: all 6^8 addresses with pieces from {0,1,0xa,0x10,0xabc,0xffff} (all 2^8 zero patterns x digit-count classes) through IPv6Addr.String() against the model serializer and through parse(serialize(a)) = a. non-trivial = accepted address / serialized address; states = distinct canonical texts",
 		Assume:  []string{"reference model's IPv6 parser and serializer, validated through WPT"},
 		Trusted: []string{"verif/model"},
@@ -227,6 +227,71 @@ func init() {
 				}
 			}
 			rec(nil, false)
+			// '::' at EVERY position, the two ends included (the recursion above writes a compression as one empty
+			// piece, which can only stand between two pieces): n pieces, compression before piece i (i = n: at the
+			// end) or none, a second compression, a lone ':' at either end, an IPv4 tail instead of the last pieces
+			c.Space("compress-positions")
+			build := func(ps []string, at, at2 int) string {
+				var sb strings.Builder
+				for i, p := range ps {
+					if i == at || i == at2 {
+						sb.WriteString("::")
+					} else if i > 0 {
+						sb.WriteString(":")
+					}
+					sb.WriteString(p)
+				}
+				if at == len(ps) || at2 == len(ps) {
+					sb.WriteString("::")
+				}
+				return sb.String()
+			}
+			for n := 0; n <= 9; n++ {
+				var assigns [][]string
+				for m := 0; m < 1<<uint(n); m++ { // every zero / non-zero pattern
+					ps := make([]string, n)
+					for i := range ps {
+						ps[i] = []string{"1", "0"}[(m>>uint(i))&1]
+					}
+					assigns = append(assigns, ps)
+				}
+				for i := 0; i < n; i++ { // one deviating piece
+					for _, d := range []string{"ffff", "00", "0001", "10000", "g", "FfFf"} {
+						ps := make([]string, n)
+						for j := range ps {
+							ps[j] = "2"
+						}
+						ps[i] = d
+						assigns = append(assigns, ps)
+					}
+				}
+				for _, ps := range assigns {
+					if !c.Mine() || c.Expired() {
+						continue
+					}
+					for at := -1; at <= n; at++ {
+						t := build(ps, at, -2)
+						one(c, "compress-positions", "http", "["+t+"]")
+						one(c, "compress-positions", "http", "[:"+t+"]")
+						one(c, "compress-positions", "http", "["+t+":]")
+						if at >= 0 {
+							for at2 := at + 1; at2 <= n; at2++ {
+								one(c, "compress-positions", "foo", "["+build(ps, at, at2)+"]")
+							}
+						}
+						if n >= 1 && n <= 8 {
+							// the last piece replaced by an IPv4 tail (stands for two pieces)
+							for ti, tl := range v4tails {
+								if ti > 0 && (ps[0] != "1" || at > 1) {
+									continue
+								}
+								q := append(append([]string{}, ps[:n-1]...), tl)
+								one(c, "compress-positions", "http", "["+build(q, at, -2)+"]")
+							}
+						}
+					}
+				}
+			}
 			c.Space("source-derived-bounds")
 			_, ints := sourceLiterals()
 			for _, v := range ints {
